@@ -15,7 +15,7 @@ P49 = "p" * 49
 
 POOLS = {
     "f": [NAN, 0.0, -0.0, 1.0, -1.0, 2.5, INF, -INF, 2.0**53, 2.0**53 + 2, -2.0**60, 1e-7, 1e16, 5e-324],
-    "i": [0, 1, -1, 2, 7, 2**31, -2**31, 2**53, 2**53 + 1, 2**53 + 2, -(2**53 + 1), 2**63 - 1, 2**63 - 2, -2**63 + 1, -2**63,
+    "i": [0, 1, -1, -2, 2, 7, 2**61 - 1, 2**31, -2**31, 2**53, 2**53 + 1, 2**53 + 2, -(2**53 + 1), 2**63 - 1, 2**63 - 2, -2**63 + 1, -2**63,
           127, 128, -128, -129, 255, 256, 32767, 32768, -32768, 65535, 65536, 2**31 - 1, 2**32],     # width boundaries
     "b": [True, False],
     "s": ["", "a", "b", "ab", "B", "é", "日本", "😀", " a", P49 + "a", P49 + "b", P49, "q" * 70, "a\x00", "a\x00b"],
@@ -32,6 +32,8 @@ POOLS = {
     "y": ["a", "b", "ab", "B"],
     "i8": [-128, -127, -1, 0, 1, 127],
     "u8": [0, 1, 2, 254, 255],
+    "f32": [NAN, 0.0, -0.0, 1.0, -1.5, 0.1, INF, -INF, 16777216.0, 3.4028234663852886e38],    # 0.1 is not a float32 value: rounded on build
+    "i32": [0, 1, -1, 7, 2**31 - 1, -2**31],
 }
 
 # Small pools (2-3 distinct non-missing values) that make ties and duplicate keys the norm.
@@ -40,7 +42,7 @@ TIGHT = {
     "s": ["", "a", "b", P49 + "a", "a\x00"], "u": ["", "a", "b"], "d": [None, "1970-01-01", "2020-12-31"],
     "t": [None, "1970-01-01T00:00:00.000001", "2020-12-31T12:00:00"], "tm": POOLS["tm"][:3], "ts": POOLS["ts"][:3],
     "td": [None, 0, 1], "o": [None, "a", "b"], "oi": [None, 1, 2], "ob": [None, True, False], "y": ["a", "b"],
-    "i8": [-128, 0, 127], "u8": [0, 1, 255],
+    "i8": [-128, 0, 127], "u8": [0, 1, 255], "f32": [NAN, 0.0, 1.0, 0.5], "i32": [0, 1, 2**31 - 1],
 }
 
 _text = st.text(alphabet=st.characters(blacklist_categories=("Cs",), blacklist_characters="\x00"), max_size=12)
@@ -64,9 +66,11 @@ TAILS = {
     "y": st.text(alphabet="abAB", min_size=1, max_size=3),
     "i8": st.integers(-128, 127),
     "u8": st.integers(0, 255),
+    "f32": st.floats(allow_nan=True, allow_infinity=True, width=32),
+    "i32": st.integers(-2**31, 2**31 - 1),
 }
 
-NA_VALUE = {"f": NAN, "s": "", "u": "", "d": None, "t": None, "tm": None, "ts": None, "td": None,
+NA_VALUE = {"f": NAN, "f32": NAN, "s": "", "u": "", "d": None, "t": None, "tm": None, "ts": None, "td": None,
             "o": None, "oi": None, "ob": None}
 
 
